@@ -704,6 +704,105 @@ func ruleC19Atomic(c *Ctx) {
 		}
 		return true
 	}
+	// the write may sit in a helper that is handed the TEMPORARY name (`ds.writeTempFile(tmpName)`: create, encode, close)
+	// while its only caller builds that name and renames: then the caller is the function that is judged, and the helper
+	// call stands for "created and closed"
+	var tmpHelperCall *ssa.Call
+	if opens(W) {
+		var hc *ssa.Call
+		for _, in := range instrsOf(W) {
+			if call, ok := in.(*ssa.Call); ok {
+				if n := fullCalleeName(call); n == "os.Create" || n == "os.OpenFile" {
+					hc = call
+				}
+			}
+		}
+		if hc != nil {
+			if prm, isP := resolveLocal(hc.Call.Args[0]).(*ssa.Parameter); isP {
+				pidx := -1
+				for i, q := range W.Params {
+					if q == prm {
+						pidx = i
+					}
+				}
+				if node := c.CG.Nodes[W]; node != nil && len(node.In) == 1 && pidx >= 0 {
+					site, _ := node.In[0].Site.(*ssa.Call)
+					caller := node.In[0].Caller.Func
+					if site != nil && caller != nil && pidx < len(site.Call.Args) {
+						a := site.Call.Args[pidx]
+						derived := true
+						for _, leaf := range phiLeaves(a, map[ssa.Value]bool{}) {
+							if _, ok := leaf.(*ssa.Parameter); ok {
+								derived = false
+							}
+						}
+						// closed on every way out once the file exists (the error side of the creation has nothing to close)
+						closedAfter := func() bool {
+							isClose := func(in ssa.Instruction) bool {
+								call, ok := in.(*ssa.Call)
+								return ok && (fullCalleeName(call) == "(*os.File).Close" || closesAlways(call.Call.StaticCallee(), 1))
+							}
+							seen := map[*ssa.BasicBlock]bool{}
+							okAll := true
+							var walk func(b *ssa.BasicBlock, start int)
+							walk = func(b *ssa.BasicBlock, start int) {
+								for _, in := range b.Instrs[start:] {
+									if isClose(in) {
+										return
+									}
+									if _, isRet := in.(*ssa.Return); isRet {
+										okAll = false
+										return
+									}
+								}
+								for si, sc := range b.Succs {
+									// the branch on the creation's own error: its non-nil side has no file
+									if ifi, ok := b.Instrs[len(b.Instrs)-1].(*ssa.If); ok {
+										if bo, ok := ifi.Cond.(*ssa.BinOp); ok && (bo.Op == token.NEQ || bo.Op == token.EQL) {
+											x := bo.X
+											if isNilConst(x) {
+												x = bo.Y
+											}
+											fromCreate := false
+											if e, ok := resolveLocal(x).(*ssa.Extract); ok && e.Tuple == ssa.Value(hc) {
+												fromCreate = true
+											}
+											// the error kept in a cell (a named result that a deferred closure reads): the load in the
+											// creation's own block, after the creation's error was stored there
+											if u, ok := x.(*ssa.UnOp); ok && u.Op == token.MUL && b == hc.Block() {
+												for _, in2 := range b.Instrs {
+													if st, ok := in2.(*ssa.Store); ok && st.Addr == u.X {
+														if e, ok := st.Val.(*ssa.Extract); ok && e.Tuple == ssa.Value(hc) {
+															fromCreate = true
+														}
+													}
+												}
+											}
+											if fromCreate {
+												if (bo.Op == token.NEQ && si == 0) || (bo.Op == token.EQL && si == 1) {
+													continue
+												}
+											}
+										}
+									}
+									if !seen[sc] {
+										seen[sc] = true
+										walk(sc, 0)
+									}
+								}
+							}
+							walk(hc.Block(), instrIndex(hc)+1)
+							return okAll
+						}
+						if derived && closedAfter() {
+							tmpHelperCall = site
+							W = caller
+						}
+					}
+				}
+			}
+		}
+	}
 	var create, rename *ssa.Call
 	var closes []*ssa.Call
 	createsFinal := func(call *ssa.Call) bool {
@@ -739,6 +838,25 @@ func ruleC19Atomic(c *Ctx) {
 		}
 	}
 	key := fnName(W) + ":create-then-rename"
+	if tmpHelperCall != nil && create == nil {
+		pidx := 0
+		for i, a := range tmpHelperCall.Call.Args {
+			if _, isStr := a.Type().Underlying().(*types.Basic); isStr && i > 0 {
+				pidx = i
+			}
+		}
+		isP := func(v ssa.Value) bool { _, ok := v.(*ssa.Parameter); return ok }
+		switch {
+		case rename == nil:
+			c.S.Bad("R-C19-atomic-replace", key, c.Pos(tmpHelperCall.Pos()), "the writer creates a temporary file but never renames it onto the final name")
+		case !isP(rename.Call.Args[1]) || rename.Call.Args[0] != tmpHelperCall.Call.Args[pidx]:
+			c.S.Bad("R-C19-atomic-replace", key, c.Pos(rename.Pos()), "the rename does not move the file the helper wrote onto the final name")
+		case !instrDominates(tmpHelperCall, rename):
+			c.S.Bad("R-C19-atomic-replace", key, c.Pos(rename.Pos()), "the file is renamed onto the final name before the helper has written and closed it")
+		default:
+			c.S.OK("R-C19-atomic-replace", key, c.Pos(rename.Pos()), "temporary file written and closed by "+fnName(tmpHelperCall.Call.StaticCallee())+", then renamed onto the final name")
+		}
+	}
 	if create == nil && opener != nil {
 		// judged through the helper
 		var hcreate *ssa.Call
@@ -794,7 +912,7 @@ func ruleC19Atomic(c *Ctx) {
 		default:
 			c.S.OK("R-C19-atomic-replace", key, c.Pos(rename.Pos()), "temporary file (created by "+fnName(opener)+"), closed, then renamed onto the final name")
 		}
-	} else if create == nil {
+	} else if create == nil && tmpHelperCall == nil {
 		c.S.Undecided("R-C19-atomic-replace", key, c.Pos(W.Pos()), "the writer does not open a file with os.Create/os.OpenFile")
 		return
 	}
